@@ -159,3 +159,23 @@ fn c_deprecated(deps: &PortConfig) -> u16 {
 pub fn c_documented(deps: &PortConfig) -> u16 {
     deps.base
 }
+
+// the concrete dependency is itself an instantiation of `Impl<..>` (fields of the application through
+// Deref plus its other entraited functions): still a leaf trait with both impls
+#[entrait(CImplWrapped)]
+fn c_impl_wrapped(app: &Impl<App>, add: usize) -> usize {
+    app.name.len() + add
+}
+#[entrait(CImplWrappedBorrow)]
+fn c_impl_wrapped_borrow(app: &entrait::Impl<App>) -> &str {
+    &app.name
+}
+pub struct HandOptIn(pub Impl<App>);
+impl CImplWrapped for HandOptIn {
+    fn c_impl_wrapped(&self, add: usize) -> usize {
+        self.0.c_impl_wrapped(add)
+    }
+}
+fn _c_impl_wrapped_forwarding(a: &Impl<HandOptIn>, b: &Impl<Impl<App>>) -> usize {
+    a.c_impl_wrapped(1) + b.c_impl_wrapped(2) + b.c_impl_wrapped_borrow().len()
+}
